@@ -28,7 +28,18 @@ impl<T: Copy + Number + std::fmt::Debug> Sparse<T> {
 
     /// Create a new sparse matrix of specified size using a vector of values
     pub fn from_vecs( rows: usize, cols: usize, val: Vec<T>, row_index: Vec<usize>, col_start: Vec<usize> ) -> Self {
-        //TODO check that the vectors are the correct length val.len() == row_index.len()
+        // the three arrays must describe one rows x cols matrix in compressed-column form
+        if val.len() != row_index.len() { panic!( "Sparse matrix from_vecs: val.len() != row_index.len()." ); }
+        if col_start.len() != cols + 1 { panic!( "Sparse matrix from_vecs: col_start.len() != cols + 1." ); }
+        if col_start[ 0 ] != 0 || col_start[ cols ] != val.len() {
+            panic!( "Sparse matrix from_vecs: col_start must run from 0 to val.len()." );
+        }
+        for j in 0..cols {
+            if col_start[ j ] > col_start[ j + 1 ] { panic!( "Sparse matrix from_vecs: col_start must not decrease." ); }
+        }
+        for k in 0..row_index.len() {
+            if rows <= row_index[ k ] { panic!( "Sparse matrix from_vecs: row range error." ); }
+        }
         Self {
             rows: rows,
             cols: cols,
